@@ -390,3 +390,44 @@ literal!(c01_literal_hex, true, false);
 literal!(c01_literal_hex_neg, true, true);
 literal!(c01_literal_dec, false, false);
 literal!(c01_literal_dec_neg, false, true);
+
+/// C18: the gate holds for every letter case of the mnemonic as it appears in the *source text* (the lexer folds
+/// case before classifying): one real advance_token on "push"/"pop"/"call"/"rets" with a symbolic case mask
+macro_rules! gate_case {
+    ($name:ident, $word:expr, $kind:expr) => {
+        #[kani::proof]
+        #[kani::unwind(12)]
+        #[kani::stub(alloc::fmt::format, stubs::fmt_format)]
+        fn $name() {
+            let on: bool = kani::any();
+            crate::features::verif_h::set_stack(on);
+            let mask: u8 = kani::any();
+            let w: &[u8] = $word;
+            static mut GBUF: [u8; 4] = [0; 4];
+            let n = w.len();
+            let mut i = 0;
+            while i < n {
+                unsafe {
+                    GBUF[i] = if (mask >> i) & 1 == 1 { w[i] ^ 0x20 } else { w[i] };
+                }
+                i += 1;
+            }
+            let src: &'static str = unsafe { core::str::from_utf8_unchecked(&*core::ptr::addr_of!(GBUF).cast::<[u8; 4]>()).get_unchecked(..n) };
+            let mut c = Cursor::new(src);
+            let r = c.advance_token();
+            match r {
+                Ok(t) => assert!(on && t.kind == TokenKind::Instr($kind), "stack mnemonic accepted without the flag (or misclassified) in some letter case"),
+                Err(e) => {
+                    assert!(!on, "stack mnemonic rejected although the flag is on");
+                    core::mem::forget(e);
+                }
+            }
+            kani::cover!(on && mask & 0xF == 0xF);
+            kani::cover!(!on && mask & 0xF == 0x5);
+        }
+    };
+}
+gate_case!(c18_gate_case_push, b"push", crate::symbol::InstrKind::Push);
+gate_case!(c18_gate_case_pop, b"pop", crate::symbol::InstrKind::Pop);
+gate_case!(c18_gate_case_call, b"call", crate::symbol::InstrKind::Call);
+gate_case!(c18_gate_case_rets, b"rets", crate::symbol::InstrKind::Rets);
